@@ -200,7 +200,8 @@ Fixpoint ends_with_blank_line (t : bnode) : bool :=
 
 Definition is_cons {A} (l : list A) : bool := match l with [] => false | _ => true end.
 
-(* finalize, List arm: the two nested `while let Some(..)` loops over items and their children *)
+(* list_is_tight (called by finalize, List arm and Paragraph arm): the two nested `while let Some(..)` loops over
+   items and their children *)
 Fixpoint subitems_tight (item_has_next : bool) (subs : list bnode) : bool :=
   match subs with
   | [] => true
@@ -431,6 +432,28 @@ Fixpoint first_line_end (s : bytes) : nat :=
   | b :: r => if is_line_end_char b then 0 else S (first_line_end r)
   end.
 
+(* finalize_borrowed, Paragraph arm, after `node.detach()`: `parent` is the parent the paragraph had.  When the parent's
+   parent is a List that is already closed (add_child finalizes a list before the blocks still open inside it) its
+   tightness is computed again, over the children it has now (list_is_tight). *)
+Definition retighten (st : pstate) (parent : option nat) : res pstate :=
+  match parent with
+  | None => Ok st
+  | Some item =>
+    match parent_of item (ps_root st) with
+    | None => Ok st
+    | Some lid =>
+      do l <- get st lid;
+      if bi_open (binf l) then Ok st else
+      match bval l with
+      | NList nl =>
+        let nl' := mkList (l_type nl) (l_marker_offset nl) (l_padding nl) (l_start nl) (l_delim nl) (l_bullet nl)
+                          (items_tight (bkids l)) (l_task nl) in
+        modify_info st lid (set_val (NList nl'))
+      | _ => Ok st
+      end
+    end
+  end.
+
 (* finalize_borrowed(node, ast): returns the parent *)
 Definition finalize (o : bopts) (st : pstate) (id : nat) : res (option nat * pstate) :=
   do n <- get st id;
@@ -451,7 +474,7 @@ Definition finalize (o : bopts) (st : pstate) (id : nat) : res (option nat * pst
     let '(content', has_content, m') := r in
     do st1 <- modify_info st id (fun _ => set_content content' i1);
     let st2 := st_refmap st1 m' in
-    if has_content then Ok (parent, st2) else (do st3 <- bdetach st2 id; Ok (parent, st3))
+    if has_content then Ok (parent, st2) else (do st3 <- bdetach st2 id; do st4 <- retighten st3 parent; Ok (parent, st4))
   | CodeBlock cb =>
     do lit <- (if negb (cb_fenced cb) then
                  (do c <- remove_trailing_blank_lines (bi_content i); Ok (cb_info cb, c ++ [x0a]))
